@@ -448,7 +448,7 @@ func hasRule(rules []string, name string) bool {
 func ruleSetFor(t tv) string {
 	for _, r := range parseRules(t.Rules) {
 		switch r.name {
-		case "nullable", "optional", "const", "enum":
+		case "nullable", "optional", "enum":
 			return ""
 		}
 	}
